@@ -53,6 +53,7 @@ def main():
             if src is not None:
                 open(path, "w").write(src)
             env = dict(os.environ, VERIF_REPO=wt)
+            t0 = __import__("time").time() - 1
             rs = [subprocess.run([os.path.join(VERIF, "bin/check"), c], cwd=VERIF, env=env, capture_output=True, text=True)
                   for c in m["check"].split(",")]
             r = rs[0]
@@ -60,6 +61,10 @@ def main():
                 if x.returncode != 0:
                     r = x
             out = "".join(x.stdout for x in rs)
+            for c in m["check"].split(","):     # the printed report is truncated; the replay file has every violation
+                vp = os.path.join(VERIF, ".cache", "evidence-scratch", c + ".violations.json")
+                if os.path.exists(vp) and os.path.getmtime(vp) >= t0:
+                    out += "\n" + open(vp).read()
             expect = m.get("expect")
             if expect is None:   # behaviour-preserving rewrite: must stay silent
                 ok = r.returncode == 0
